@@ -153,6 +153,29 @@ def expected_of(case):
 
 
 _PARSERS = {}
+_KEPT = []      # long-lived parsers: (parser, case) re-asked later; a parser configured with base b must keep using b
+
+
+def revisit(ctx):
+    """Ask a parser created a while ago (and left alone since) the same phrase again."""
+    if len(_KEPT) < 30:
+        return
+    p, case = _KEPT.pop(0)
+    phrase, exp, exp_period = expected_of(case)
+    if exp is None:
+        return
+    try:
+        dd = p.get_date_data(phrase)
+        got, got_period = dd["date_obj"], dd["period"]
+    except Exception as e:
+        got, got_period = e, None
+    ctx.ran()
+    if got != exp or got_period != exp_period:
+        ctx.violation(dict(case, phrase=phrase, revisit=True), {"date": got, "period": got_period},
+                      {"date": exp, "period": exp_period}, "relative-arithmetic:long-lived-parser",
+                      {"form": case.get("form") or "word", "revisit": True})
+    else:
+        ctx.count("revisited_long_lived_parsers_ok")
 
 
 def check_case(ctx, case):
@@ -166,8 +189,12 @@ def check_case(ctx, case):
         st["TIMEZONE"] = case["tz"]
     PathTap.reset()
     try:
-        dd = DateDataParser(languages=["en"], settings=st).get_date_data(phrase)
+        parser_obj = DateDataParser(languages=["en"], settings=st)
+        dd = parser_obj.get_date_data(phrase)
         got, got_period = dd["date_obj"], dd["period"] if dd["date_obj"] is not None else None
+        if ctx.evaluations % 7 == 0:
+            _KEPT.append((parser_obj, dict(case)))
+            revisit(ctx)
     except Exception as e:
         got, got_period = e, None
     path = PathTap.accepted()
